@@ -4,7 +4,7 @@ From Coq.Strings Require Import Byte.
 Import ListNotations.
 From GA.Base Require Import Bytes Case Align CorrBase.
 From GA.Gen Require Import Alpha IOConst.
-From GA.Model Require Fasta Phylip Nexus Clustal.
+From GA.Model Require Fasta Phylip Nexus Clustal ClustalParse.
 From GA.Model Require Import Translate.
 
 Definition brows := list (bs * bs).
@@ -41,8 +41,14 @@ Definition model_ok (c : case) : bool :=
     bytes_eqb (unbs (k_written c)) (Nexus.write (Z.eqb (k_inalpha c) AMINOACIDS) rs) &&
     (negb (is_class c "Ok") || rows_eqb (unrows (k_out c)) (Nexus.read (unbs (k_written c))))
   else if is_cfg c "clustal" then
-    (* the Clustal writer (rows, running residue counts, conservation line) is modelled *)
-    bytes_eqb (unbs (k_written c)) (Clustal.write (k_inalpha c) rs)
+    (* the Clustal writer (rows, running residue counts, conservation line) is modelled, and so is the parser:
+       what the code model of the parser reads in the written bytes must be what the code's parser returned *)
+    bytes_eqb (unbs (k_written c)) (Clustal.write (k_inalpha c) rs) &&
+    (negb (forallb is_ascii (unbs (k_written c))) ||
+     match ClustalParse.parse (unbs (k_written c)) with
+     | ClustalParse.ROk rows => negb (is_class c "Ok") || rows_eqb (unrows (k_out c)) rows
+     | ClustalParse.RErr => negb (is_class c "Ok")
+     end)
   else true.
 
 (* ---- SPEC: representable alignments round-trip ---------------------------------------------- *)
